@@ -111,6 +111,7 @@ class Image:
         self.ival = ival
         self.tokens = tokens
         self.note = note
+        self.bool_tokens = []  # lexemes written for bool inputs that pass validation ("True"/"False")
 
     def describe(self):
         if self.kind == "int":
@@ -544,7 +545,15 @@ class SimpleTypes:
                     return Image("float-repr", v[1], note="str(float(v))")
                 if v[0] == "val":
                     if v[1].integral:
-                        return Image("int", v[1])
+                        img = Image("int", v[1])
+                        # str() applied to the caller's value itself: a bool is an Integral, passes an isinstance-based validate and
+                        # is written as "True"/"False" (str(True)), not as a number
+                        if isinstance(e.args[0], ast.Name) and e.args[0].id == pname and acc is not None and acc.kind == "int" \
+                                and getattr(acc, "admits_bool", True):
+                            iv = v[1]
+                            img.bool_tokens = sorted(t for t, n in (("False", 0), ("True", 1))
+                                                     if (iv.lo is None or iv.lo <= n) and (iv.hi is None or n <= iv.hi))
+                        return img
                     return Image("float-repr", v[1], note="str() of a possibly non-integral number")
                 if v[0] == "const":
                     return Image("tokens", tokens={str(v[1])})
